@@ -23,7 +23,7 @@ import json
 import time
 from fractions import Fraction
 
-from . import circ
+from . import circ, e2e
 from .common import Ctx, Result
 
 LEVEL = "proof"
@@ -320,9 +320,11 @@ def build(src, element, M, k=None):
     if isinstance(element, tuple):
         el = getattr(T, element[0])(element[1])
     # the oracle the constructor will use, compiled independently from a fresh qlassf
-    qf0 = qlassf(src)
-    oracle0 = oraclize(qf0, el) if el is not None else qf0
+    with e2e.ChoiceLog() as chlog:
+        qf0 = qlassf(src)
+        oracle0 = oraclize(qf0, el) if el is not None else qf0
     oc = oracle0.circuit()
+    e2e_req = e2e.request(oracle0, chlog)
     og = circ.qc_to_json(oc)
     for d in og:
         d["id"] = 0
@@ -345,7 +347,7 @@ def build(src, element, M, k=None):
         d["id"] = 0
     return dict(g=g, og=og, nq=nq, ret=ret, gates=gl, num_qubits=qc.num_qubits,
                 output_qubits=list(g.output_qubits), k=g.n_iterations, n=g.search_space_size,
-                orig=orig, element=el, or2xor_log=log)
+                orig=orig, element=el, or2xor_log=log, e2e_req=e2e_req)
 
 
 def check_case(ctx, res, case, rec, S, tj, pending, dist_by_S, default_k):
@@ -423,6 +425,9 @@ def check_case(ctx, res, case, rec, S, tj, pending, dist_by_S, default_k):
     pending.append(dict(case=case, rec=rec, S=S, tj=tj, D=D, dec=dec_code, default_k=default_k, attributed=attributed))
 
 
+_tally = e2e.Tally()
+
+
 def flush(ctx, res, pending):
     if not pending:
         return
@@ -435,6 +440,8 @@ def flush(ctx, res, pending):
         reqs.append(dict(op="c15.predict", n=n, M=M, k=rec["k"]))
         for bs in p["dec"]:
             reqs.append(dict(op="c15.decode", ty=p["tj"], out=bs))
+        if rec.get("e2e_req") is not None:
+            reqs.append(rec["e2e_req"])
     replies = ctx.model(reqs)
     if replies is None:
         pending.clear()
@@ -447,6 +454,17 @@ def flush(ctx, res, pending):
         rdec = replies[i:i + len(p["dec"])]
         i += len(p["dec"])
         n = rec["n"]
+        # ---- is this instance covered end to end by C15_end_to_end_fragment?
+        form = case.get("form") if isinstance(case, dict) else None
+        if rec.get("e2e_req") is None:
+            _tally.add("no-form", form)
+        else:
+            status, detail = e2e.verdict(replies[i], rec["og"], rec["nq"], rec["ret"])
+            i += 1
+            _tally.add(status, form)
+            if status == "mismatch":
+                res.disagree(case, "oracle definition list is in the class inXorFragment but the compiler model run on the "
+                             "logged ancilla choices does not reproduce the oracle circuit of this instance", **detail)
         if "driver_error" in rg or rg.get("gates") != rec["gates"]:
             mg = rg.get("gates") or []
             first = next((j for j, (a, b) in enumerate(zip(mg, rec["gates"])) if a != b), min(len(mg), len(rec["gates"])))
@@ -532,6 +550,8 @@ def run(ctx: Ctx) -> Result:
         "forms whose oracle needs more than the evaluator's support budget are counted as skipped"
     )
     validate_evaluator(ctx, res)
+    global _tally
+    _tally = e2e.Tally()
     pending, dist_by_S = [], {}
     t_run = time.time()
     ctx.log(f"[C15] run starts {t_run - ctx.t0:.1f}s after launch")
@@ -593,9 +613,19 @@ def run(ctx: Ctx) -> Result:
     if incomplete:
         res.notes.append("wall-clock safety net reached during the random pass (machine under load); the systematic pass was complete")
     res.notes.append(
-        "the step from the gate list to the reduced recurrence (class_uniform_invariant) is NOT proved; it is tied by "
-        "this correspondence only: exact distribution of every explored real circuit == predict n M k"
+        "the step from the gate list to the reduced recurrence is proved for every clean xor-oracle (class_uniform_invariant, "
+        "grover_distribution, C15_full); this correspondence additionally ties it to the real circuits: exact distribution of "
+        "every explored real circuit == predict n M k"
     )
+    res.extra["end_to_end"] = dict(covered=_tally.covered, instances=_tally.total, by_form=_tally.by)
+    res.notes.append(
+        f"{_tally.covered} of {_tally.total} evaluated instances are covered end to end by the Lean theorem "
+        "C15_end_to_end_fragment (default iteration count; C15_end_to_end_distribution for the instances with an explicit "
+        "count): the oracle's definition list lies in the decidable class inXorFragment AND the compiler "
+        "model, run on the ancilla choices logged from the real compilation, emits exactly the oracle circuit inside this "
+        f"Grover circuit (a difference would be a disagreement); per form covered/evaluated: {_tally.by_text()}; the other "
+        "instances (several definitions, repeated sub-expressions, constants, oraclize of a several-bit function) rest on "
+        "the per-instance clean-xor-oracle check of the real circuit, as before")
     res.notes.append(f"table entries explored: {len(table(nmax))} (n <= {nmax}); the (n, M) table itself is enumerated completely, "
                      "solution sets and forms per entry are a systematic slice plus a random part")
     res.assumptions.append("textbook action of H, X, Z, MCX, MCtrl(Z) on amplitudes (harness evaluator, cross-checked each run "
